@@ -101,7 +101,18 @@ def flags(repo):
     if "find_entry(&plan.id)" in head and not dup_up_front:
         common.log("translate/execflags: apply_plan's up-front duplicate-id refusal is no longer the unconditional "
                    f"`History::load(..)?.find_entry(&plan.id).is_some()` guard: {conds or 'find_entry outside an if condition'}")
+    per_pid = bool(re.search(r"with_extension\(\s*format!\(\s*\"\{\}\.renamify\.tmp\"\s*,\s*std::process::id\(\)\s*\)\s*\)", edit))
+    fixed = ("temp_sibling(" in edit) or bool(re.search(r"with_extension\(\s*\"renamify\.tmp\"\s*\)", edit))
+    if per_pid == fixed:
+        raise RuntimeError("translate/execflags: cannot tell how apply_content_edits_with_content names its temp file")
+    i_tmp = edit.find("temp_path")
+    excl = "create_new(true)" in edit
+    if not excl and "File::create(&temp_path)" not in edit:
+        raise RuntimeError("translate/execflags: apply_content_edits_with_content opens its temp file in a way the model does not know")
     return {
+        "tempNamePerPid": per_pid,
+        "tempOpenExclusive": excl,
+        "tempCleanupOnlyOwn": bool(re.search(r"if\s+temp_created\s*\{[^}]*remove_file", edit, re.S)),
         "dupIdRefusedUpFront": dup_up_front,
         "rollbackRealPairs": "renames_executed" in rollback_fn,
         "logErrorsIgnored": "?;" not in log_fn,
@@ -128,6 +139,9 @@ def flags(repo):
 
 
 DOC = {
+    "tempNamePerPid": "the temp file of a content edit is named <stem>.<pid>.renamify.tmp (a leftover of a killed process never collides)",
+    "tempOpenExclusive": "the temp file of a content edit is opened with create_new (O_EXCL) instead of File::create (O_TRUNC)",
+    "tempCleanupOnlyOwn": "the error path of a content edit removes the temp file only if this call created it",
     "dupIdRefusedUpFront": "apply_plan refuses a plan whose id is already in the history before anything is touched, unconditionally "
                            "(`if History::load(renamify_dir)?.find_entry(&plan.id).is_some()` ahead of ApplyState::new)",
     "rollbackRealPairs": "apply.rs::rollback reverts the renames with the paths they were executed with (renames_executed)",
